@@ -299,6 +299,54 @@ class ProxyPeer(BasePeer):
             self.inner.on_client_close(conn)
 
 
+class SocksStubPeer(BasePeer):
+    """The other end of the python_socks stand-in (sim/stubs_socks): reads its one request line, answers OK, splices to `inner`."""
+
+    def __init__(self, world, cfg, inner_factory):
+        self.w = world
+        self.k = world.k
+        self.cfg = cfg or {}
+        self.inner_factory = inner_factory
+        self.inner = None
+        self.buf = bytearray()
+        self.line = None
+        self.after_connect = bytearray()
+
+    def on_connect(self, conn):
+        self.conn = conn
+
+    def on_bytes(self, conn, data):
+        if self.line is None:
+            self.buf += data
+            if b"\n" not in self.buf:
+                return
+            ln, rest = bytes(self.buf).split(b"\n", 1)
+            self.line = ln.decode("utf-8", "replace")
+            if self.cfg.get("refuse"):
+                conn.write(b"general failure\n")
+                conn.link.finish("eof")
+                return
+            conn.write(b"OK\n")
+            self.inner = self.inner_factory(conn, self.line)
+            self.inner.on_connect(conn)
+            if rest:
+                self.on_bytes(conn, rest)
+            return
+        self.after_connect += data
+        if self.inner is not None:
+            self.inner.on_bytes(conn, data)
+
+    def on_client_eof(self, conn):
+        if self.inner is not None:
+            self.inner.on_client_eof(conn)
+        else:
+            conn.link.finish("eof")
+
+    def on_client_close(self, conn):
+        if self.inner is not None:
+            self.inner.on_client_close(conn)
+
+
 def basic_auth(user, password):
     # RFC 7617: user-pass = user-id ":" password - the colon is there also when the password is empty
     s = f"{user}:{password or ''}"
